@@ -1,7 +1,7 @@
 """C03 — Parallel stages hand every work item to exactly one worker and then terminate."""
 PROPERTY = "C03"
 LEVEL = "other"
-CONTRACT_MODULES = ["contracts.specfuns", "contracts.lemmas_desc", "contracts.pyramid", "contracts.parallel", "contracts.walk", "contracts.reducer", "contracts.lemmas_embed", "contracts.generator", "contracts.image", "contracts.merge", "contracts.pyramidio", "contracts.study", "contracts.multitan", "contracts.multiwcs", "contracts.toastsample", "contracts.toastgeom", "contracts.toastgen"]
+CONTRACT_MODULES = ["contracts.specfuns", "contracts.lemmas_desc", "contracts.pyramid", "contracts.parallel", "contracts.walk", "contracts.reducer", "contracts.lemmas_embed", "contracts.generator", "contracts.image", "contracts.merge", "contracts.pyramidio", "contracts.study", "contracts.multitan", "contracts.multiwcs", "contracts.toastsample", "contracts.toastgeom", "contracts.toastgen", "contracts.progressc"]
 FUNCTIONS = [
     "toasty.pyramid.Pyramid.visit_leaves",
     "toasty.pyramid.Pyramid._visit_leaves_serial",
@@ -15,6 +15,7 @@ FUNCTIONS = [
     "toasty.multi_wcs._mp_tile_worker",
     "toasty.pyramid.Pyramid._generator",
     "toasty.multi_tan._mp_tile_worker",
+    "toasty.progress.progress_bar",
 ]
 LEMMAS = []
 SLOW = ()
